@@ -44,8 +44,11 @@ def strat_model(draw, families=("bs", "hem", "merton", "vg", "cgmy")):
 
 @st.composite
 def strat_case(draw, tier):
+    # "declare": the model's triplet is re-declared in another Levy-Khintchine representation before pricing (what every
+    # CTMC process does to its copy of the model; the multilevel engine prices that copy with COS): same process, same prices
     return {"model": draw(strat_model()), "T": draw(_f(0.1, 3.0)), "nk": draw(st.integers(3, 9)),
-            "scalar_k": draw(st.floats(0.2, 0.8))}
+            "scalar_k": draw(st.floats(0.2, 0.8)),
+            "declare": draw(st.sampled_from([None, None, "TILDE", "ONEONE", "CENTER"]))}
 
 
 def _ladder(pricer, spot, T, nk, carry=0.0):
@@ -92,6 +95,10 @@ def body_arbitrage(case):
     out = []
     spec, T = case["model"], case["T"]
     model = build_model(spec)
+    if case.get("declare") and spec["family"] != "bs":
+        from rpylib.model.levymodel.levymodel import LevyRepresentation
+
+        model.levy_triplet.set_representation(LevyRepresentation[case["declare"]])
     e = spec["exp"]
     spot = e["spot"]
     br = branch_of(spec)
@@ -154,6 +161,15 @@ def body_arbitrage(case):
         d1, d2 = -(cm[4] - cm[0]) / (2 * hk), -(cm[3] - cm[1]) / hk
         if abs(d1 - d2) <= 2e-5 and abs(d2 - dig[mid]) > 1e-4 + 5 * eps_dig:
             out.append(Violation(f"C18/cos/{br}/digital-is-not-minus-dC-dK", f"{dig[mid]} vs {d2} (h) and {d1} (2h); {detail}"))
+    # cdf(K) = P(S_T < K) (its docstring): 1 - digital/df, in [0,1], non-decreasing
+    if eps_dig <= 1e-4:
+        cdf = np.asarray(p1.cdf(time=T, x=ks), dtype=float)
+        tol_c = 1e-7 + 5 * eps_dig + 0.1 * _atom(spec, T)
+        if np.max(np.abs(cdf - (1.0 - dig / df))) > 1e-9 + tol_c * (1 - df) / df:
+            out.append(Violation(f"C18/cos/{br}/cdf-is-not-one-minus-the-undiscounted-digital",
+                                 f"cdf {cdf} vs 1 - digital/df {1.0 - dig / df} (df={df}); {detail}"))
+        elif np.any(cdf < -tol_c) or np.any(cdf > 1 + tol_c) or np.any(np.diff(cdf) < -tol_c):
+            out.append(Violation(f"C18/cos/{br}/cdf-not-a-distribution-function", f"{cdf}; {detail}"))
     # scalar strike gives the same as the vector
     ksc = float(ks[0] + case["scalar_k"] * (ks[-1] - ks[0]))
     c_s = float(np.asarray(p1.call(np.array([ksc]), T)).ravel()[0])
@@ -198,7 +214,8 @@ def body_arbitrage(case):
 
 def classify_arbitrage(case):
     br = branch_of(case["model"])
-    return [br, "T<0.5" if case["T"] < 0.5 else ("T>1.5" if case["T"] > 1.5 else "T~1")], \
+    return [br, "T<0.5" if case["T"] < 0.5 else ("T>1.5" if case["T"] > 1.5 else "T~1"),
+            f"declared={case.get('declare') or 'as-built'}"], \
         (case["model"]["family"] != "bs" or not (0.5 <= case["T"] <= 1.5))
 
 
@@ -422,13 +439,13 @@ SUBCHECKS = [
              rule="one COSPricer / FFTPricer object used for a generated sequence of 2..6 calls (call, put, digital, "
                   "forward, density, cdf; maturities in [0.05,5]) against a fresh pricer per call: bitwise equal; "
                   "non-trivial = at least two different maturities",
-             strategy=strat_reuse, budget={"quick": 160, "thorough": 2000}, shards={"quick": 16, "thorough": 16}),
+             strategy=strat_reuse, budget={"quick": 480, "thorough": 2000}, shards={"quick": 16, "thorough": 16}),
     SubCheck("black-scholes-closed-form", body_cf, classify_cf,
              rule="CFBlackScholes over spot, r, d, volatility (incl. 0 and values on both sides of the 1e-8 threshold of "
                   "its degenerate branch) x maturity (incl. 0 and values around 1e-8) x three strikes: forward = df(F-K), "
                   "call - put = forward, arbitrage bounds, time value <= df F sigma sqrt(T)/sqrt(2 pi) (so the "
                   "zero-volatility limit is the discounted intrinsic value against the forward), digital in [0,df]; "
                   "non-trivial = degenerate branch or volatility <= 1e-3",
-             strategy=strat_cf, budget={"quick": 1600, "thorough": 24000}, shards={"quick": 16, "thorough": 16},
+             strategy=strat_cf, budget={"quick": 4800, "thorough": 24000}, shards={"quick": 16, "thorough": 16},
              essential_labels=("degenerate-branch", "sigma<eps")),
 ]
